@@ -2,11 +2,12 @@
 # runs every seeded change found in the scratch worktrees through tools/seeded.sh (sequentially)
 VROOT=$(cd "$(dirname "$0")/.." && pwd)
 cd $VROOT
-for wt in /tmp/wt_m5 /tmp/wt_m4 /tmp/wt_m1 /tmp/wt_m6 /tmp/wt_m2; do
+OUT=${SEEDED_OUT:-$VROOT/seeded}
+for wt in /tmp/wt_m1 /tmp/wt_m2 /tmp/wt_m3 /tmp/wt_m4 /tmp/wt_m5 /tmp/wt_m6 /tmp/wt_n1 /tmp/wt_n2 /tmp/wt_n3 /tmp/wt_n4 /tmp/wt_n5; do
   for d in $wt/seeded/*/; do
     id=$(basename $d)
     [ -f $d/meta.json ] || continue
-    [ -f $VROOT/seeded/$id/meta.json ] && grep -q check_exit $VROOT/seeded/$id/meta.json && continue
+    [ -f $OUT/$id/meta.json ] && grep -q check_exit $OUT/$id/meta.json && continue
     ./tools/seeded.sh $wt $id 2>&1 | grep -v conda
   done
 done
